@@ -135,6 +135,7 @@ pub struct G<'a> {
     counter: u64,
     fcur: usize,
     ucur: usize,
+    tcur: usize,
     pub stats: BTreeMap<String, u64>,
     pub types_seen: HashMap<(u32, u32), ()>,
     v: AutosarVersion,
@@ -143,7 +144,7 @@ pub struct G<'a> {
 
 impl<'a> G<'a> {
     pub fn new(seed: u64, members: &'a Members) -> Self {
-        G { rng: SplitMix64(seed), members, counter: 0, fcur: 0, ucur: 0, stats: BTreeMap::new(), types_seen: HashMap::new(), v: AutosarVersion::LATEST, budget: 0 }
+        G { rng: SplitMix64(seed), members, counter: 0, fcur: 0, ucur: 0, tcur: 0, stats: BTreeMap::new(), types_seen: HashMap::new(), v: AutosarVersion::LATEST, budget: 0 }
     }
     fn chance(&mut self, pct: u64) -> bool {
         self.rng.below(100) < pct
@@ -832,7 +833,7 @@ fn node_ref<'b>(n: &'b GNode, path: &[usize]) -> &'b GNode {
 pub const DEFECTS: &[&str] = &[
     "unknown-element", "misplaced-element", "unknown-attribute", "unknown-enum-item", "foreign-enum-item", "version-element", "version-element-nested", "version-attribute",
     "version-enum-item", "choice-conflict", "multiplicity", "multiplicity-nonadjacent", "missing-short-name", "missing-required-attr", "too-long", "pattern-mismatch",
-    "not-a-number", "bad-entity", "bad-entity-sign", "trailing-data", "bad-version", "bad-namespace", "header-inside", "text-forbidden",
+    "not-a-number", "bad-entity", "bad-entity-sign", "trailing-data", "tail-misc-only", "bad-version", "bad-namespace", "header-inside", "text-forbidden",
     "invalid-utf8", "element-in-chars", "empty-value",
 ];
 
@@ -849,8 +850,29 @@ impl<'a> G<'a> {
         let vm = self.vm();
         match class {
             "trailing-data" => {
-                const T: &[&str] = &["<X/>", "junk", "<AUTOSAR/>", "<AR-PACKAGES/>", "</AUTOSAR>", "&amp;", "x<!--c-->"];
-                trailer.extend_from_slice(T[self.rng.below(T.len() as u64) as usize].as_bytes());
+                // data behind the root element: directly, after white space, after a processing instruction, after one or several
+                // comments (round-robin over separator x data, so every combination occurs)
+                const SEP: &[&str] = &["", "\n", "  \n\t", "<?pi x?>", "<!--c-->", "\n<!-- end -->\n", "<!--a--><!--b-->", "<!--a-->\n<?pi?>\n<!--b-->\n", "\n<!-- x > y -->"];
+                const DATA: &[&str] = &[
+                    "<X/>", "junk", "<AUTOSAR/>", "<AR-PACKAGES></AR-PACKAGES>", "</AUTOSAR>", "&amp;", "<NO-SUCH-ELEMENT>", "<?xml version=\"1.0\" encoding=\"utf-8\"?>",
+                    "<AR-PACKAGES><AR-PACKAGE><SHORT-NAME>late</SHORT-NAME></AR-PACKAGE></AR-PACKAGES>", "x<!--c-->", "<!--c-->x",
+                ];
+                let k = self.tcur;
+                self.tcur += 1;
+                let sep = SEP[k % SEP.len()];
+                let data = DATA[(k / SEP.len()) % DATA.len()];
+                trailer.extend_from_slice(sep.as_bytes());
+                trailer.extend_from_slice(data.as_bytes());
+                self.stat(&format!("trailing.after-{}", match k % SEP.len() { 0 => "nothing", 1 | 2 => "whitespace", 3 => "pi", 4 | 5 | 8 => "one-comment", _ => "several-comments" }));
+                return true;
+            }
+            "tail-misc-only" => {
+                // only comments / processing instructions / white space behind the root: well-formed XML (document ::= prolog element Misc*);
+                // NOT tagged as a defect (no expectation of rejection) - correspondence and the agreement clauses still apply
+                const T: &[&str] = &["<!--c-->", "\n<!-- end -->\n", "<?pi x?>", "<!--a--><!--b-->", "\n<?pi?>\n<!--c-->", "  \n ", "<!--a-->\n<!--b-->\n<!--c-->"];
+                let k = self.tcur;
+                self.tcur += 1;
+                trailer.extend_from_slice(T[k % T.len()].as_bytes());
                 return true;
             }
             "bad-version" => {
@@ -1646,7 +1668,9 @@ pub fn main(args: &[String]) {
     for class in DEFECTS {
         let mut made = 0;
         let mut tries = 0;
-        let per_class = if *class == "version-element-nested" { if thorough { nested_sites.len().max(per_class) } else { 160 } } else { per_class };
+        let per_class = if *class == "trailing-data" && !thorough {
+            110
+        } else if *class == "version-element-nested" { if thorough { nested_sites.len().max(per_class) } else { 160 } } else { per_class };
         while made < per_class && tries < per_class * 30 {
             tries += 1;
             let k = g.rng.below(trees.len() as u64) as usize;
@@ -1660,12 +1684,12 @@ pub fn main(args: &[String]) {
             g.v = v;
             let mut trailer = Vec::new();
             // (the class that is a recorded hole is never combined: a second defect on the same site would hide which one was accepted)
-            let ndef = if thorough && *class != "empty-value" { 1 + g.rng.below(3) } else { 1 };
+            let ndef = if thorough && *class != "empty-value" && !class.starts_with("tail-") { 1 + g.rng.below(3) } else { 1 };
             let mut ok = g.inject(&mut tree, class, &mut trailer);
-            let mut tag = format!("x={}", class);
+            let mut tag = if class.starts_with("tail-") { format!("tail:{}", &class[5..]) } else { format!("x={}", class) };
             for _ in 1..ndef {
                 let c2 = DEFECTS[g.rng.below(DEFECTS.len() as u64) as usize];
-                if ok && c2 != "empty-value" && g.inject(&mut tree, c2, &mut trailer) {
+                if ok && c2 != "empty-value" && !c2.starts_with("tail-") && g.inject(&mut tree, c2, &mut trailer) {
                     tag = format!("{}+{}", tag, c2);
                 }
             }
